@@ -21,7 +21,7 @@ Lemma wp_smod f s n (Q : unit -> rst -> Z -> Prop) : Q tt (f s) n -> wp (smod f 
 Proof. intros H; exact H. Qed.
 Lemma wp_sub_blen k s n (Q : unit -> rst -> Z -> Prop) : Q tt (set_blen s (u32 (r_blen s - k))) n -> wp (sub_blen k s) n Q.
 Proof. intros H; exact H. Qed.
-Lemma wp_sfail {A} c s n (Q : A -> rst -> Z -> Prop) : 0 < c < 9 -> wp (sfail c s) n Q.
+Lemma wp_sfail {A} c s n (Q : A -> rst -> Z -> Prop) : c = 3 \/ c = 7 -> wp (sfail c s) n Q.
 Proof. intros H; exact H. Qed.
 
 Ltac wps :=
@@ -37,7 +37,7 @@ Ltac wps :=
     | |- wp (s_rd _ _) _ _ => apply wp_s_rd; intros ? ? ?
     | |- wp (s_disc _ _) _ _ => apply wp_s_disc; intros ? ?
     | |- wp (s_wrap _ _) _ _ => unfold s_wrap
-    | |- wp (Ret _) _ _ => progress cbn [wp fst snd]
+    | |- wp (Ret _) _ _ => progress cbn [wpe errcls fst snd]
     | |- wp ((if ?b then _ else _) _) _ _ => destruct b eqn:?
     end ].
 
@@ -108,16 +108,16 @@ Qed.
 Lemma readBlock_ok s n : 0 <= n ->
   wp (readBlock s) n (fun _ s' n' => same_if s s' /\ 0 <= n' <= n - 8).
 Proof.
-  intros Hn. unfold readBlock. cbn [wp]. split.
+  intros Hn. unfold readBlock. cbn [wpe]. split.
   - intros bs n' R. rdok R.
     destruct (_ =? BT_SHB).
-    + cbn [wp]. split.
+    + cbn [wpe]. split.
       * intros m n'' R. rdok R.
-        destruct (be_val m =? BOM); [cbn [wp fst snd]; unfold same_if; sim; repeat split; lia|].
-        destruct (le_val m =? BOM); cbn [wp fst snd]; [unfold same_if; sim; repeat split; lia|lia].
-      * intros m st Hst. destruct st; [congruence| |]; cbn [wp fst snd err_of]; lia.
-    + cbn [wp fst snd]. unfold same_if; sim. repeat split; lia.
-  - intros bs st Hst. destruct st; [congruence| |]; cbn [wp fst snd]; [destruct bs; lia|lia].
+        destruct (be_val m =? BOM); [cbn [wpe errcls fst snd]; unfold same_if; sim; repeat split; lia|].
+        destruct (le_val m =? BOM); cbn [wpe errcls fst snd]; [unfold same_if; sim; repeat split; lia|lia].
+      * intros m st Hst. destruct st; [congruence| |]; cbn [wpe errcls fst snd err_of]; lia.
+    + cbn [wpe errcls fst snd]. unfold same_if; sim. repeat split; lia.
+  - intros bs st Hst. destruct st; [congruence| |]; cbn [wpe errcls fst snd]; [destruct bs; lia|lia].
 Qed.
 
 (* ---- readOption *)
@@ -180,17 +180,20 @@ Proof.
   all: destruct (r_oval s1); wps; use IH; [auto | lia | assumption].
 Qed.
 
-Lemma wp_and {A} (p : io (rst * outcome A)) : forall n (Q1 Q2 : A -> rst -> Z -> Prop),
-  wp p n Q1 -> wp p n Q2 -> wp p n (fun a s n' => Q1 a s n' /\ Q2 a s n').
+Lemma wpe_and {A} (p : io (rst * outcome A)) : forall e n (Q1 Q2 : A -> rst -> Z -> Prop),
+  wpe p e n Q1 -> wpe p e n Q2 -> wpe p e n (fun a s n' => Q1 a s n' /\ Q2 a s n').
 Proof.
-  induction p as [r|k cont IH|k cont IH|cont IH|cont IH|a sn bl k IH]; intros n Q1 Q2; cbn [wp].
+  induction p as [r|k cont IH|k cont IH|cont IH|cont IH|a sn bl k IH]; intros e n Q1 Q2; cbn [wpe].
   - destruct (snd r); auto.
-  - intros [A1 A2] [B1 B2]; split; intros; apply IH; auto.
-  - intros [A1 A2] [B1 B2]; split; intros; apply IH; auto.
-  - intros [A1 A2] [B1 B2]; split; intros; apply IH; auto.
-  - intros A1 B1 bs st. apply IH; auto.
+  - intros [A1 A2] [B1 B2]; split; intros; [apply IH; auto|auto].
+  - intros [A1 A2] [B1 B2]; split; intros; [apply IH; auto|auto].
+  - intros [A1 A2] [B1 B2]; split; intros; [apply IH; auto|auto].
+  - intros [A1 A2] [B1 B2]; split; intros; [apply IH; auto|auto].
   - intros [A0 A1] [B0 B1]. split; auto.
 Qed.
+Lemma wp_and {A} (p : io (rst * outcome A)) n (Q1 Q2 : A -> rst -> Z -> Prop) :
+  wp p n Q1 -> wp p n Q2 -> wp p n (fun a s n' => Q1 a s n' /\ Q2 a s n').
+Proof. apply wpe_and. Qed.
 
 Lemma readIDB_ok F s n : 0 <= n < Z.of_nat F -> Inv s ->
   wp (readIDB F s) n (fun _ s' n' => Inv s' /\ r_ifaces s' <> [] /\ r_ci s' = r_ci s /\ r_link s' = r_link s /\ r_first s' = r_first s /\ 0 <= n' <= n - 8).
@@ -233,7 +236,7 @@ Proof. intros H E. rewrite Forall_forall in H. apply H. eapply nth_error_In; eau
 Lemma put_stats_ok id st s n (Q : unit -> rst -> Z -> Prop) :
   Inv s -> (forall s', Inv s' -> r_blen s' = r_blen s -> Q tt s' n) -> wp (put_stats id st s) n Q.
 Proof.
-  intros HI HQ. unfold put_stats, smod. cbn [wp fst snd]. apply HQ.
+  intros HI HQ. unfold put_stats, smod. cbn [wpe errcls fst snd]. apply HQ.
   - destruct (nth_error (r_ifaces s) (Z.to_nat id)) eqn:E; [|exact HI].
     unfold Inv; sim. apply Forall_upd; [exact HI|].
     pose proof (Forall_nth_error _ _ _ _ HI E) as (A & B & C). repeat split; assumption.
@@ -286,9 +289,9 @@ Lemma nrb_names_ok : forall fuel len acc s n, 0 <= n < Z.of_nat fuel ->
 Proof.
   induction fuel as [|f IH]; intros len acc s n Hn; [lia|].
   cbn [nrb_names]. destruct (len <=? 0). { apply wp_sret. split; [reflexivity|lia]. }
-  apply wp_bind. cbn [wp]. split.
-  - intros bs n' H1 H2 ->. cbn [wp fst snd]. use IH; [|lia]. intros ? ? ? (-> & ?). split; [reflexivity|lia].
-  - intros bs st Hst. destruct st; [congruence| |]; cbn [wp fst snd err_of]; lia.
+  apply wp_bind. cbn [wpe]. split.
+  - intros bs n' H1 H2 ->. cbn [wpe errcls fst snd]. use IH; [|lia]. intros ? ? ? (-> & ?). split; [reflexivity|lia].
+  - intros bs st Hst. destruct st; [congruence| |]; cbn [wpe errcls fst snd err_of]; lia.
 Qed.
 
 Lemma nrb_loop_ok F : forall fuel s n, 0 <= n < Z.of_nat fuel -> n < Z.of_nat F -> Inv s ->
@@ -369,8 +372,8 @@ Qed.
 Lemma newReader_ok ro F n : 0 <= n < Z.of_nat F ->
   wp (newReader ro F init_rst) n (fun _ s' n' => Inv s' /\ 0 <= n' <= n).
 Proof.
-  intros Hn. unfold newReader. apply wp_bind. cbn [wp]. intros bs st.
-  destruct st; cbn [wp fst snd]; [|destruct bs; lia|lia].
+  intros Hn. unfold newReader. apply wp_bind. cbn [wpe]. split;
+    [intros bs; cbn [wpe errcls fst snd]|intros bs st Hst; destruct st; [congruence| |]; cbn [wpe errcls fst snd]; [destruct bs; lia|lia]].
   wps. use readBlock_ok; [|lia]. intros _ s1 n1 (S1 & B1). wps.
   use readSectionHeader_ok; [|lia]. intros ? ? ? (? & ?). split; [assumption|lia].
 Qed.
@@ -456,38 +459,43 @@ Qed.
 Lemma sok_nonneg fs : sok fs -> 0 <= flen fs.
 Proof. intros [H _]. rewrite H. apply zlen_nonneg. Qed.
 
+Definition clsok (b : bool) (c : Z) : Prop := (c = 3 \/ c = 7) \/ (b = false /\ 0 < c < 9).
+
 Lemma read_all_ok ro F : forall fuel acc s fs,
   sok fs -> allocs_ok fs -> Inv s -> flen fs < Z.of_nat fuel -> flen fs < Z.of_nat F -> Forall pkt_shape acc ->
   let r := run_f (read_all ro F fuel acc s) fs in
-  0 < snd (fst (fst r)) < 9 /\ Forall pkt_shape (fst (fst (fst r))) /\ allocs_ok (snd r).
+  clsok (ffail fs) (snd (fst (fst r))) /\ Forall pkt_shape (fst (fst (fst r))) /\ allocs_ok (snd r).
 Proof.
   induction fuel as [|f IH]; intros acc s fs Hs Ha HI Hf HF Hacc; [pose proof (sok_nonneg fs Hs); lia|].
   cbn [read_all]. rewrite run_f_bind.
   pose proof (wp_sound (readPacket ro F s) fs _ Hs Ha (readPacket_ok ro F s (flen fs) ltac:(pose proof (sok_nonneg fs Hs); lia) HI)) as R.
   destruct (run_f (readPacket ro F s) fs) as [[s' o] fs']. unfold res_ok in R; cbn [fst snd] in R.
-  destruct R as [Ra R]. destruct o as [p|c|q]; cbn [fst snd]; [|cbn [run_f fst snd cls_of]|contradiction].
-  - destruct R as ((HI' & B & Sh) & Hs'). apply IH; auto; try lia.
-  - repeat split; try lia; auto. apply Forall_rev; exact Hacc.
+  destruct R as (Ra & Rf & R). destruct o as [p|c|q]; cbn [fst snd]; [|cbn [run_f fst snd cls_of]|contradiction].
+  - destruct R as ((HI' & B & Sh) & Hs'). rewrite <- Rf. apply IH; auto; try lia.
+  - repeat split; auto. apply Forall_rev; exact Hacc.
 Qed.
 
 Theorem session_flat_ok ro d fail : bytes_ok d ->
   let r := session_flat ro d fail in
-  (* class of NewNgReader and of the terminal result: never a panic (>= 1000), never out of fuel (9) *)
+  (* class of NewNgReader and of the terminal result: never a panic (>= 1000), never out of fuel (9);
+     io.EOF / io.ErrUnexpectedEOF (1, 2) only when the stream ends without a read error *)
   0 <= fst (fst (fst (fst r))) < 9 /\ 0 < snd (fst (fst r)) < 9
-  /\ Forall pkt_shape (snd (fst (fst (fst r)))) /\ allocs_ok (snd r).
+  /\ Forall pkt_shape (snd (fst (fst (fst r)))) /\ allocs_ok (snd r)
+  /\ (fst (fst (fst (fst r))) = 0 \/ clsok fail (fst (fst (fst (fst r))))) /\ clsok fail (snd (fst (fst r))).
 Proof.
   intros Hd. unfold session_flat, session.
   set (F := fuel_for (zlen d)). set (fs := fstream_of d fail).
   assert (sok fs) as Hs by (unfold sok, fs, fstream_of; cbn; auto).
   assert (allocs_ok fs) as Ha by (unfold allocs_ok, fs, fstream_of; cbn; constructor).
   assert (flen fs < Z.of_nat F) as HF by (unfold F, fuel_for, fs, fstream_of; cbn [flen]; pose proof (zlen_nonneg d); lia).
+  assert (ffail fs = fail) as Hff by reflexivity.
   rewrite run_f_bind.
   pose proof (wp_sound (newReader ro F init_rst) fs _ Hs Ha (newReader_ok ro F (flen fs) ltac:(pose proof (sok_nonneg fs Hs); lia))) as R.
   destruct (run_f (newReader ro F init_rst) fs) as [[s' o] fs']. unfold res_ok in R; cbn [fst snd] in R.
-  destruct R as [Ra R]. destruct o as [u|c|q]; cbn [fst snd]; [|cbn [run_f fst snd cls_of]|contradiction].
+  destruct R as (Ra & Rf & R). rewrite Hff in *. destruct o as [u|c|q]; cbn [fst snd]; [|cbn [run_f fst snd cls_of]|contradiction].
   - destruct R as ((HI' & B) & Hs'). rewrite run_f_bind.
     pose proof (read_all_ok ro F F [] s' fs' Hs' Ra HI' ltac:(lia) ltac:(lia) ltac:(constructor)) as RA.
-    cbv zeta in RA. destruct (run_f (read_all ro F F [] s') fs') as [[[pk cls] st] fs'']. cbn [fst snd run_f] in *.
-    repeat split; try lia; tauto.
-  - repeat split; try lia; auto.
+    cbv zeta in RA. rewrite Rf in RA. destruct (run_f (read_all ro F F [] s') fs') as [[[pk cls] st] fs'']. cbn [fst snd run_f] in *.
+    destruct RA as (C & P & AL). unfold clsok in *. repeat split; try tauto; try lia.
+  - unfold clsok in *. repeat split; try tauto; try lia; auto.
 Qed.
